@@ -290,6 +290,18 @@ def _norm_const(t):
     m = re.match(r'^((?:\w+::)*Option)::<.*>::None$', v)
     if m:
         return ('variant', m.group(1), 'None', ())
+    # a constant struct with literal fields (`const NO_ALLOWANCE: AllowanceValue = AllowanceValue { amount: 0, .. }`) is that struct
+    m = re.match(r'^((?:\w+::)*[A-Z]\w*) \{+ (.*?) \}+$', v)
+    if m and '{' not in m.group(2) and '(' not in m.group(2):
+        fs = []
+        for part in m.group(2).split(', '):
+            if ': ' not in part:
+                fs = None
+                break
+            n, x = part.split(': ', 1)
+            fs.append((n.strip(), ('const', x.strip())))
+        if fs:
+            return ('struct', m.group(1), tuple(fs))
     return ('const', v) + tuple(t[2:])
 
 
